@@ -73,6 +73,15 @@ def run(prog, rep, tier, cfg):
             return has_atom(at, 'F:MinerInfo.owner')
         if props:
             X.call_guard('K6a', 'change_owner:propose-by-owner', cl, [props[0][0]], validates_owner, 'validate_immediate_caller_is([owner])?')
+        # the old owner's pending beneficiary proposal dies with the handover
+        pbt = X.write_blocks(cl, 'MinerInfo', 'pending_beneficiary_term')
+        r1 = cl.reach([0], blocked=set(pbt) | cl.errblocks)
+        before = not (set(wo) & r1)
+        after = bool(pbt) and not any(cl.ok_returns_from([t for (t, _l) in cl.succ[w]], blocked=set(pbt)) for w in wo)
+        rep.need('K7', 'change_owner:cancels-pending-beneficiary-proposal', bool(pbt) and (before or after),
+                 'every completed owner handover clears MinerInfo.pending_beneficiary_term', X.loc(cl, wo[0] if wo else None))
+        vals = X.stmt_rvalue_atoms(cl, 'MinerInfo', 'pending_beneficiary_term', narrow=False)
+        X.value_from('K10', 'change_owner:pending-proposal-cleared-to-none', cl, vals, ['E:Option::None'], 'pending_beneficiary_term := None', forbid=['E:Option::Some'])
         # every success path stores the info
         X.followed_by('K7', 'change_owner:saved', cl, wo, [c.bb for c in cl.calls if callee_is('State::save_info')(c)], 'owner change is saved')
     # ID-address requirement
@@ -160,6 +169,17 @@ def run(prog, rep, tier, cfg):
             X.guard('K6b', 'change_beneficiary:propose:owner-quota-zero', cl, [props[0][0]], m_pred('is_zero', ['F:ChangeBeneficiaryParams.new_quota'], True), 'quota must be zero when returning to owner',
                     assume=[m_rel('ne', NOMINEE, ['F:MinerInfo.owner'], True)])
         X.followed_by('K7', 'change_beneficiary:saved', cl, X.write_blocks(cl, 'MinerInfo', 'beneficiary'), saves, 'beneficiary change is saved')
+        # a change of beneficiary resets the used quota: the comparison with the *old* beneficiary must be evaluated before the field is overwritten
+        cmpb = X.find_conds(cl, m_rel('ne', NOMINEE, ['F:MinerInfo.beneficiary'], True))
+        uq = X.write_blocks(cl, 'BeneficiaryTerm', 'used_quota')
+        rep.need('K6b', 'change_beneficiary:quota-reset-test', len(cmpb) == 1 and len(uq) >= 1, 'one comparison new_beneficiary != info.beneficiary guarding the used_quota reset expected', X.loc(cl))
+        if len(cmpb) == 1 and uq:
+            X.guard('K6b', 'change_beneficiary:quota-reset-guard', cl, uq, m_rel('ne', NOMINEE, ['F:MinerInfo.beneficiary'], True), 'used_quota is reset only when the beneficiary changes')
+            X.precedes('K7', 'change_beneficiary:compare-before-overwrite', cl, [cmpb[0][0].bb], X.write_blocks(cl, 'MinerInfo', 'beneficiary'),
+                       'info.beneficiary is compared with the nominee before it is overwritten')
+            c0, arm0 = cmpb[0]
+            X.followed_by('K7', 'change_beneficiary:quota-reset-when-changed', cl, [c0.arms[arm0]] if False else [c0.bb], uq + [c0.arms[not arm0]], 'when the beneficiary changes the used quota is reset')
+            X.value_from('K10', 'change_beneficiary:quota-reset-zero', cl, X.stmt_rvalue_atoms(cl, 'BeneficiaryTerm', 'used_quota', narrow=False), ['C:zero'], 'used_quota := 0')
     # ---- owner change keeps beneficiary semantics: beneficiary follows only if it was the old owner
     for cl in main_closure(prog, CO, lambda c: X.write_blocks(c, 'MinerInfo', 'owner')):
         wb = X.write_blocks(cl, 'MinerInfo', 'beneficiary')
